@@ -69,59 +69,8 @@ def summarize(sc):
     return s
 
 
-UNKNOWN = "<unknown>"
-
-
-class PickModel:
-    """Bookkeeping model of 'the user's pick' per choice, kept from the history alone (a map, nothing else).
-    Definite after: set member y; Choice.unset_value(); reset of a member; reset of the whole tree; a *replacing* load of a
-    hand-written file (last y entry of the choice wins, no y entry = no pick).  Everything else (member set n / unset,
-    reset of a sub-menu, merges, tool-written files, restarts) makes the affected picks unknown; the monitor then
-    falls back to the node's own record, so the model can only add demands it is sure of."""
-
-    def __init__(self, k):
-        self.member_choice = {m.name: i for i, c in enumerate(k.unique_choices) for m in c.syms}
-        self.pick = {i: None for i in range(len(k.unique_choices))}
-
-    def all_unknown(self):
-        for i in self.pick:
-            self.pick[i] = UNKNOWN
-
-    def apply(self, op, hand):
-        kind = op[0]
-        if kind == "set":
-            i = self.member_choice.get(op[1])
-            if i is not None:
-                if op[2] == "y":
-                    self.pick[i] = op[1]
-                elif self.pick[i] in (op[1], UNKNOWN):
-                    self.pick[i] = UNKNOWN
-        elif kind == "unset":
-            i = self.member_choice.get(op[1])
-            if i is not None and self.pick[i] in (op[1], UNKNOWN):
-                self.pick[i] = UNKNOWN
-        elif kind == "cunset":
-            if self.pick:
-                self.pick[op[1] % len(self.pick)] = None
-        elif kind == "reset":
-            i = self.member_choice.get(op[1])
-            if i is not None:
-                self.pick[i] = None
-        elif kind == "reset_menu":
-            self.all_unknown()
-        elif kind == "load_hand" and hand and op[2]:
-            text = hand[op[1] % len(hand)]
-            newpick = {i: None for i in self.pick}
-            for ln in text.splitlines():
-                ln = ln.strip()
-                if ln.startswith("CONFIG_") and "=" in ln:
-                    name, val = ln[len("CONFIG_"):].split("=", 1)
-                    i = self.member_choice.get(name)
-                    if i is not None and val.startswith("y"):
-                        newpick[i] = name
-            self.pick = newpick
-        elif kind in ("load", "load_hand", "restart"):
-            self.all_unknown()
+UNKNOWN = ops.UNKNOWN
+PickModel = ops.PickModel
 
 
 def expected_selection(c, pick=UNKNOWN):
